@@ -162,6 +162,30 @@ func genC16(ctx *Ctx) []Case {
 		}
 	}
 
+	// ---- diff / merge with real progress ticks over a slow store (tracker Stop must not hang,
+	// the tracker goroutine must end); gap = time between the end of the data loop and Stop()
+	preps := 3
+	if ctx.Thorough() {
+		preps = 6
+	}
+	for mode := 0; mode <= 1; mode++ {
+		for _, periodUs := range []int{1000, 5000} {
+			for _, gapUs := range []int{0, 5 * periodUs / 2} {
+				cases = append(cases, Case{Tag: "progress", Nontrivial: true, C: xt.N(xt.LI(8), xt.LI(mode), xt.LI(3000), xt.LI(periodUs), xt.LI(300), xt.LI(gapUs), xt.LI(preps))})
+				ctx.Count("progress_cases")
+			}
+		}
+	}
+	if ctx.Thorough() {
+		for i := 0; i < 24; i++ {
+			periodUs := []int{1000, 2000, 5000}[ctx.Pick(3)]
+			cases = append(cases, Case{Tag: "progress", Nontrivial: true, C: xt.N(xt.LI(8), xt.LI(i%2), xt.LI(1000+ctx.Pick(5000)), xt.LI(periodUs),
+				xt.LI(100+ctx.Pick(401)), xt.LI(ctx.Pick(3*periodUs)), xt.LI(preps))})
+			ctx.Count("progress_cases")
+		}
+	}
+	ctx.Count("progress_repetitions_per_case_" + string(rune('0'+preps)))
+
 	// ---- exhaustive small scope: workers x blocks x size of the last block
 	maxW, maxB := 4, 4
 	if ctx.Thorough() {
